@@ -74,6 +74,16 @@ Theorem C14_flush_answered : forall inp s i t old, reachable inp s ->
   exists l s', progress_label l = true /\ exec inp l s = Some s'.
 Proof. intros inp s i t old R _. apply progress_at. now apply reachable_Inv. Qed.
 
+(* NOTE: "never cancels, duplicates or suppresses" holds in the model because it has no step that could (a flush only
+   waits); the content of the clause is therefore (a) the tie: tflush.handle's body is exactly "wait on the captured
+   channel; return Rflush" and handleRequest is the tied event table, and (b) the harness, which checks on the observed
+   frames that the flushed request gets exactly one reply of its own type or Rlerror ([solicited]).  "Stopped
+   executing" = every backend call made on its behalf is over and none starts later: in the model backend calls exist
+   only between LEnter and LExit inside handle; that the code makes none outside handle is the tie
+   C14_tie_no_background_work (no go statement / timer / worker hand-off in package p9 and the module packages it
+   imports, except the receiver hand-off and the accept loop) and the monitor of the harness (every File method records
+   enter and exit; at each observed Rflush none on behalf of the flushed request is running, none begins later, and the
+   Rflush does not precede the release of the gate the request is held at - event order, no timing). *)
 (** No effect on the flushed request: it still gets exactly one reply, of its own type —
     the flush neither cancels, duplicates nor suppresses it (its steps never consult a later
     request, and the reply log has at most one entry per request). *)
@@ -96,13 +106,17 @@ Proof. exact (conj tie_capture_under_recvMu (conj tie_capture_guarded (conj tie_
 Theorem C14_tie_tflush_handle : body_tflush_handle = ["if t.wait != nil { <-t.wait }"; "return &rflush{}"]%string.
 Proof. exact tie_tflush_handle. Qed.
 Theorem C14_tie_cleartag : cleartag_after_handle = true /\ cleartag_before_send = true /\
-  body_connState_ClearTag = ["cs.tagMu.Lock()"; "defer cs.tagMu.Unlock()"; "ch, ok := cs.tags[t]"; "if !ok { panic(""unused tag cleared"") }"; "delete(cs.tags, t)"; "close(ch)"]%string /\
-  body_connState_TagDone = ["cs.tagMu.Lock()"; "defer cs.tagMu.Unlock()"; "ch, ok := cs.tags[t]"; "if !ok { return nil }"; "return ch"]%string.
+  body_connState_ClearTag = ["cs.tagMu.Lock()"; "defer cs.tagMu.Unlock()"; "v0, v1 := cs.tags[v2]"; "if !v1 { panic(""unused tag cleared"") }"; "delete(cs.tags, v2)"; "close(v0)"]%string /\
+  body_connState_TagDone = ["cs.tagMu.Lock()"; "defer cs.tagMu.Unlock()"; "v0, v1 := cs.tags[v2]"; "if !v1 { return nil }"; "return v0"]%string.
 Proof. exact (conj tie_cleartag_after_handle (conj tie_cleartag_before_send (conj tie_ClearTag tie_TagDone))). Qed.
-(** every backend call made on behalf of a request happens inside its handle: the server-side files
-    start no goroutine except the receiver hand-off and the accept loop *)
-Theorem C14_tie_no_background_work : go_sites = ["connState.handleRequest"; "Server.ServeContext"; "Server.ServeContext"]%string.
-Proof. exact tie_go_sites. Qed.
+(** every backend call made on behalf of a request happens inside its handle: no non-test file of package p9
+    (nor of the module packages it imports: internal, linux, vecnet) starts a goroutine except the receiver
+    hand-off and the accept loop, none uses a timer, and the only channel sends are the client's completion
+    signals and the message pool - so a handler cannot detach work, directly or through a helper *)
+Theorem C14_tie_no_background_work :
+  go_sites = ["server.go:connState.handleRequest"; "server.go:Server.ServeContext"; "server.go:Server.ServeContext"]%string /\ timer_sites = [] /\
+  chan_send_sites = ["client.go:Client.handleOne"; "client.go:Client.handleOne"; "client.go:Client.waitAndRecv"; "messages.go:registry.put"]%string.
+Proof. exact (conj tie_go_sites (conj tie_timer_sites tie_chan_send_sites)). Qed.
 Theorem C14_tie_events : handleRequest_events = expected_events.
 Proof. exact tie_events. Qed.
 
